@@ -156,6 +156,31 @@ func (w *world) drainObserver(o *observer) (evs []string, alive bool) {
 	return evs, true
 }
 
+// observerMessages: what the observing session shows for its mailbox (UID and flags of every message).
+func observerMessages(o *observer) ([]vmsg, bool) {
+	r, err := o.c.Cmd("UID FETCH 1:* (UID FLAGS)")
+	if err != nil || r.Status != "OK" {
+		return nil, false
+	}
+	var ms []vmsg
+	for _, e := range imapc.Evs(r) {
+		if e.Kind == "FETCH" && e.HasFl {
+			ms = append(ms, vmsg{UID: e.UID, Flags: normFlags(e.Flags)})
+		}
+	}
+	sort.Slice(ms, func(i, j int) bool { return ms[i].UID < ms[j].UID })
+	// one entry per message (a flag change announced during the FETCH repeats the message)
+	var out []vmsg
+	for _, m := range ms {
+		if len(out) > 0 && out[len(out)-1].UID == m.UID {
+			out[len(out)-1] = m
+			continue
+		}
+		out = append(out, m)
+	}
+	return out, true
+}
+
 func (w *world) reviveObservers(snap *dbSnap) {
 	var keep []*observer
 	for _, o := range w.obs {
@@ -456,6 +481,20 @@ func (w *world) step(u *upd, tag string) (*stepRec, error) {
 				fail("replay-closed-session", "observer of "+o.mbox+" was disconnected by a re-delivered update")
 			} else if len(evs) > 0 {
 				fail("replay-announced", fmt.Sprintf("observer of %s received %v", o.mbox, evs))
+			}
+		}
+		// "produces exactly the change it describes" also for a session that had the mailbox selected while the update
+		// arrived: once everything queued for it has been applied and announced, what it shows (UIDs and flags) is what
+		// a fresh session shows
+		if fresh, ok := vAfter.Boxes[o.mbox]; ok && alive && ack == "ok" {
+			if got, ok2 := observerMessages(o); ok2 {
+				var want []vmsg
+				for _, m := range fresh.Msgs {
+					want = append(want, vmsg{UID: m.UID, Flags: m.Flags})
+				}
+				if msgsString(got) != msgsString(want) {
+					fail("observer-diverged", fmt.Sprintf("the session that has %s selected shows %s, a fresh session shows %s (announced to it: %v)", o.mbox, msgsString(got), msgsString(want), evs))
+				}
 			}
 		}
 	}
